@@ -1176,7 +1176,10 @@ func c13GenSizes(t *rapid.T, dgram bool) []int {
 		case dgram:
 			sz = rapid.IntRange(0, 1100).Draw(t, "size")
 		default:
-			switch rapid.IntRange(0, 5).Draw(t, "sizeClass") {
+			switch rapid.IntRange(0, 6).Draw(t, "sizeClass") {
+			case 6:
+				// more than 16 full records in one Write
+				sz = rapid.SampledFrom([]int{262144, 262145, 300000}).Draw(t, "size")
 			case 0:
 				sz = rapid.IntRange(0, 64).Draw(t, "size")
 			case 1, 2:
